@@ -80,8 +80,12 @@ def gen_cases(tier, rng):
             k1 = [None if rng.random() < 0.2 else v for v in k1]
         lvl0 = [rng.randrange(rng.randint(1, 3)) for _ in range(n)]
         selection = rng.choice([None, None, "one", "list", "attr"]) if kind == "frame" else None
+        window = rng.choice([1, 2, 3])
+        # the arguments the facade forwards: every boundary value (0 / None / negative) next to ordinary ones
+        params = dict(min_periods=rng.choice([None, 0, 1, window]), ddof=rng.choice([1, 1, 0]), n=rng.choice([2, 0, 1, 3]),
+                      nth=rng.choice([1, 0, 2, -1]), ema=rng.choice([["alpha", 0.5], ["alpha", 0.25], ["alpha", 1.0], ["halflife", 1.0], ["halflife", 2.5]]))
         yield dict(n=n, kind=kind, index_kind=index_kind, key_spec=key_spec, cols=cols, kclass=kclass, k1=k1, k2=k2, lvl0=lvl0, selection=selection,
-                   method=rng.choice(METHODS), perm=rng.sample(range(n), n), window=rng.choice([1, 2, 3]),
+                   method=rng.choice(METHODS), perm=rng.sample(range(n), n), window=window, params=params,
                    fmask=[rng.random() < 0.7 for _ in range(n)] if rng.random() < 0.25 else None)
 
 
@@ -267,9 +271,14 @@ def evaluate(case, drv):
         fmask = None
     res["tags"].append("fmask" if fmask is not None else "nofmask")
 
+    P = {"min_periods": 1, "ddof": 1, "n": 2, "nth": 1, "ema": ["alpha", 0.5], **(case.get("params") or {})}
+    res["tags"].append(f"params:{'default' if not case.get('params') else 'varied'}")
+
     def call(g, m, engine):
         w = case["window"]
         mk = {} if (fmask is None or engine == "pandas") else {"mask": fmask}
+        if m in ("std", "var"):
+            return getattr(g, m)(ddof=P["ddof"], **mk)
         if m in AGG:
             return getattr(g, m)(**mk)
         if m.startswith("agg:"):
@@ -277,18 +286,18 @@ def evaluate(case, drv):
         if m in CUM:
             return getattr(g, m)()
         if m.startswith("rolling_"):
-            r = g.rolling(w, min_periods=1)
+            r = g.rolling(w, min_periods=P["min_periods"])
             return getattr(r, m[8:])(**mk)
         if m == "ema":
-            return g.ema(alpha=0.5)
+            return g.ema(**{P["ema"][0]: P["ema"][1]})
         if m == "apply:nansum":
             return g.apply(np.nansum, **mk)
         if m == "aggf:nanmax":
             return g.agg(np.nanmax, **mk)
         if m in ("head", "tail"):
-            return getattr(g, m)(2)
+            return getattr(g, m)(P["n"])
         if m == "nth":
-            return g.nth(1)
+            return g.nth(P["nth"])
         raise ValueError(m)
 
     def core_call(m):
@@ -300,6 +309,8 @@ def evaluate(case, drv):
             return gb.size(**cm)
         if m == "cumcount":
             return gb.cumcount()
+        if m in ("std", "var"):
+            return getattr(gb, m)(vals, ddof=P["ddof"], **cm)
         if m in AGG:
             return getattr(gb, m)(vals, **cm)
         if m in ("cumsum", "cummin", "cummax"):
@@ -307,17 +318,18 @@ def evaluate(case, drv):
         if m.startswith("agg:"):
             return getattr(gb, m[4:])(vals, **cm)
         if m.startswith("rolling_"):
-            return getattr(gb, m)(vals, window=w, min_periods=1, **cm)
+            # the facade documents: min_periods defaults to the window size
+            return getattr(gb, m)(vals, window=w, min_periods=w if P["min_periods"] is None else P["min_periods"], **cm)
         if m == "ema":
-            return gb.ema(vals, alpha=0.5)
+            return gb.ema(vals, **{P["ema"][0]: P["ema"][1]})
         if m == "apply:nansum":
             return gb.apply(vals, np.nansum, **cm)
         if m == "aggf:nanmax":
             return gb.apply(vals, np.nanmax, **cm)
         if m in ("head", "tail"):
-            return getattr(gb, m)(vals, 2, keep_input_index=True)
+            return getattr(gb, m)(vals, P["n"], keep_input_index=True)
         if m == "nth":
-            return gb.nth(vals, 1, keep_input_index=True)
+            return gb.nth(vals, P["nth"], keep_input_index=True)
         raise ValueError(m)
 
     try:
@@ -424,7 +436,7 @@ def evaluate(case, drv):
         try:
             pg = pandas_gb()
             if method.startswith("rolling_"):
-                pr = getattr(pg.rolling(case["window"], min_periods=1), method[8:])()
+                pr = getattr(pg.rolling(case["window"], min_periods=P["min_periods"]), method[8:])()
                 # pandas returns rows grouped by label: bring back to the original row order through the hidden position
                 pos = pd.Series(np.arange(n), index=obj.index)
                 order = getattr(pg.__class__, "__name__", "")
